@@ -59,7 +59,7 @@ Lemma handler_frame_local e oid o f u k : k <> o_sid o ->
   let '(e', effs, _) := handler_frame e oid o f u in
   tget (table e') k = tget (table e) k /\ cache_get (cachek e') k = cache_get (cachek e) k /\
   (forall j, j <> oid -> nth_error (objs e') j = nth_error (objs e) j) /\
-  Forall (fun x => match x with XEnq g => fsid g = o_sid o | XFut i _ | XCb i _ | XPub i _ | XAppFutCancel i => i = oid
+  Forall (fun x => match x with XEnq g => fsid g = o_sid o | XFut i _ _ _ | XCb i _ | XPub i _ | XAppFutCancel i => i = oid
                               | XHandler _ _ _ | XRaised => False end) effs.
 Proof.
   intro Hk. unfold handler_frame.
@@ -632,7 +632,7 @@ Qed.
 Theorem close_one_effects e sid oid ob : nth_error (objs e) oid = Some ob -> o_sid ob = sid ->
   snd (close_one e sid oid) =
   match o_kind ob with
-  | KRRReq => match o_fut ob with FPending => [XFut oid false] | _ => [] end                 (* pending request failed, once *)
+  | KRRReq => match o_fut ob with FPending => [XFut oid false [] []] | _ => [] end                 (* pending request failed, once *)
   | KRRResp => match o_fut ob with FPending => [XAppFutCancel oid] | _ => [] end             (* handler future cancelled *)
   | KRSReq => if o_has_sub ob then [XCb oid SError] else []                                   (* subscriber failed *)
   | KRSResp => [XPub oid PCancelOp]                                                           (* publisher cancelled *)
